@@ -22,6 +22,17 @@ const Z32: AtomicU32 = AtomicU32::new(0);
 const ROW: [AtomicU32; kv::N_POINTS] = [Z32; kv::N_POINTS];
 static GATES: [[AtomicU32; kv::N_POINTS]; MAX_ROLES] = [ROW; MAX_ROLES];
 
+/// how often each role passed each point (a peer can wait for "role R is at point P right now")
+static PASSES: [[AtomicU32; kv::N_POINTS]; MAX_ROLES] = [ROW; MAX_ROLES];
+/// per (role, point): spin a random number of iterations below this bound after passing (0 = off)
+static JITTER: [[AtomicU32; kv::N_POINTS]; MAX_ROLES] = [ROW; MAX_ROLES];
+pub fn pass_count(role: u32, point: u32) -> u32 {
+    PASSES[role as usize][point as usize].load(Relaxed)
+}
+pub fn set_jitter(role: u32, point: u32, max_spins: u32) {
+    JITTER[role as usize][point as usize].store(max_spins, Relaxed);
+}
+
 /// per-mille probability of a random delay at a point (0 = off)
 static DELAY_PERMILLE: AtomicU32 = AtomicU32::new(0);
 static DELAY_SEED: AtomicU64 = AtomicU64::new(1);
@@ -39,6 +50,7 @@ thread_local! {
     static ROLE: Cell<u32> = const { Cell::new(0) };
     static TRNG: RefCell<Option<Rng>> = const { RefCell::new(None) };
     static TCOUNT: Cell<u64> = const { Cell::new(0) };
+    static TJIT: Cell<u64> = const { Cell::new(0x2545F4914F6CDD1D) };
 }
 
 pub fn set_role(r: u32) {
@@ -81,6 +93,21 @@ fn hook(id: u32) {
         TRACE[i].store((role << 8) | id, Relaxed);
     }
     if role != 0 {
+        PASSES[role as usize][id as usize].fetch_add(1, Relaxed);
+        let j = JITTER[role as usize][id as usize].load(Relaxed);
+        if j != 0 {
+            let n = TJIT.with(|c| {
+                let mut x = c.get();
+                x ^= x << 13;
+                x ^= x >> 7;
+                x ^= x << 17;
+                c.set(x);
+                x % j as u64
+            });
+            for _ in 0..n {
+                std::hint::spin_loop();
+            }
+        }
         let g = &GATES[role as usize][id as usize];
         if g.load(Relaxed) == ARMED && g.compare_exchange(ARMED, ARRIVED, SeqCst, SeqCst).is_ok() {
             let mut n = 0u32;
@@ -163,6 +190,11 @@ pub fn release(role: u32, point: u32) {
     }
 }
 pub fn reset_gates() {
+    for r in JITTER.iter() {
+        for g in r.iter() {
+            g.store(0, Relaxed);
+        }
+    }
     for r in GATES.iter() {
         for g in r.iter() {
             if g.load(SeqCst) == ARRIVED {
